@@ -90,8 +90,17 @@ def main(argv=None):
             # an obligation that belongs to a unit that could not run is already reported there
             undecided.append((m, "obligation-missing-from-run", "listed in baseline but not generated", ""))
 
-    discharged = [o for o in obligations if o["status"] in ("proved", "covered")]
-    refuted = [o for o in obligations if o["status"] in ("refuted", "uncovered")]
+    # covers / canaries are vacuity guards, kept apart from the proof obligations
+    covers = [o for o in obligations if o["kind"] == "cover"]
+    obligations = [o for o in obligations if o["kind"] != "cover"]
+    for o in covers:
+        if o["status"] == "uncovered":
+            broken.append((o["name"], "vacuous", "precondition / canary is unsatisfiable: the contract is vacuous or too weak", ""))
+    cover_unknown = [o["name"] for o in covers if o["status"] == "unknown"]
+    if covers and len(cover_unknown) > len(covers) // 2:
+        undecided.append(("covers", "solver-unknown", f"{len(cover_unknown)} of {len(covers)} vacuity guards undecided", ""))
+    discharged = [o for o in obligations if o["status"] == "proved"]
+    refuted = [o for o in obligations if o["status"] == "refuted"]
     unknown = [o for o in obligations if o["status"] in ("unknown", "solver-disagreement")]
     for o in unknown:
         if o["status"] == "solver-disagreement":
@@ -132,13 +141,13 @@ def main(argv=None):
     wall = time.time() - t0
     if not args.no_evidence and not args.only:
         write_evidence(mod, prop, tier, seed, results, obligations, discharged, refuted, unknown, undecided,
-                       broken, bounded, violations, known_lines, wall)
+                       broken, bounded, violations, known_lines, wall, covers, cover_unknown)
 
     # ---- report
     for line in sorted(set(known_lines)):
         print(line)
     n_ob = len(obligations)
-    print(f"[{prop}] tier={tier} units={len(units)} obligations={n_ob} discharged={len(discharged)} "
+    print(f"[{prop}] tier={tier} units={len(units)} obligations={n_ob} (+{len(covers)} vacuity guards, {len(cover_unknown)} undecided) discharged={len(discharged)} "
           f"refuted={len(refuted)} unknown={len(unknown)} bounded_checks={len(bounded)} wall={wall:.1f}s")
     if broken:
         for u, k, msg, tb in broken[:20]:
@@ -201,7 +210,7 @@ def do_replay(mod, prop, path):
 
 
 def write_evidence(mod, prop, tier, seed, results, obligations, discharged, refuted, unknown, undecided, broken,
-                   bounded, violations, known_lines, wall):
+                   bounded, violations, known_lines, wall, covers=(), cover_unknown=()):
     by_solver = {}
     for o in discharged:
         by_solver[o["solver"]] = by_solver.get(o["solver"], 0) + 1
@@ -229,6 +238,7 @@ def write_evidence(mod, prop, tier, seed, results, obligations, discharged, refu
         "checker_cmd": f"python3-vt -m pdv.check {prop} --tier {tier}",
         "trusted_base": COMMON_TRUSTED + list(getattr(mod, "TRUSTED", [])),
         "by_backend": by_solver,
+        "vacuity_guards": {"covers_and_canaries": len(covers), "satisfiable": sum(1 for o in covers if o["status"] == "covered"), "undecided": list(cover_unknown)[:20]},
         "solver_time_s": round(sum(o["time_s"] for o in obligations), 2),
         "units": len(results),
         "functions_under_contract": functions,
@@ -242,7 +252,7 @@ def write_evidence(mod, prop, tier, seed, results, obligations, discharged, refu
         "known_findings_reported": sorted(set(known_lines)),
         "undecided_items": [f"{u}: {k}" for u, k, _, _ in undecided][:40],
         "evaluations": len(obligations) + sum(b.get("cases", 0) for b in bounded),
-        "distinct_nontrivial": len({o["name"] for o in obligations if o["kind"] == "prove"}),
+        "distinct_nontrivial": len({o["name"] for o in obligations}),
         "rule": "one obligation per (function, configuration, output component, clause); non-trivial = a validity query (covers/canaries excluded); bounded stand-ins are counted in evaluations only",
         "not_covered": list(getattr(mod, "NOT_COVERED", [])),
     }
